@@ -15,6 +15,7 @@ def translate(mesh : Mesh, tr : Vec) -> Mesh:
     Returns:
         Mesh: the translated mesh
     """
+    tr = np.array(tr) # own copy: `tr` may be one of the mesh's own vertices, which the loop updates in place
     for i in mesh.id_vertices:
         mesh.vertices[i] += tr
     return mesh
